@@ -85,6 +85,8 @@ func (w *responseWriter) Write(b []byte) (n int, err error) {
 // Flush get status code
 // Tips: implement the http.Flusher interface.
 func (w *responseWriter) Flush() {
+	// a flush sends the header, so the recorded status must be written first.
+	w.ensureWriteHeader()
 	w.Writer.(http.Flusher).Flush()
 }
 
